@@ -28,7 +28,7 @@ N_KEYS = {"quick": 150, "thorough": 2000}
 
 def witness_models():
     """Real replicas of the inputs of the Lean witness theorems (Props/C17.lean):
-    `witness_params_not_collected` and `witness_no_reuse`."""
+    `witness_params_not_collected`, `witness_no_reuse` and `witness_many_symbols_per_new_name`."""
     import sympy as sp
 
     from ampform.helicity import HelicityModel
@@ -52,7 +52,17 @@ def witness_models():
         components={"I": a * x},
         reaction_info=reaction,
     )
-    return model, {"collectsParams": {"m_0": "mgamma"}, "reusesExisting": {"a": "d"}}
+    g = sp.Symbol("g", nonnegative=True)
+    merge_model = HelicityModel(  # Lean: Witness.mergeModel
+        intensity=PoolSum(sp.Abs(A[lam]) ** 2, (lam, (0, 1))),
+        amplitudes={A[0]: a * x, A[1]: g * x * a},
+        parameter_defaults={a: 1 + 0j, g: 0.5},
+        kinematic_variables={x: InvariantMass(p0)},
+        components={"I": a * x},
+        reaction_info=reaction,
+    )
+    return model, {"collectsParams": (model, {"m_0": "mgamma"}), "reusesExisting": (model, {"a": "d"}),
+                   "oneSymbolPerNewName": (merge_model, {"a": "k", "g": "k"})}
 
 
 def infer_variant(chk) -> tuple[dict, list]:
@@ -61,24 +71,28 @@ def infer_variant(chk) -> tuple[dict, list]:
 
     from tools.search import C17_oracle as oracle
 
-    model, probes = witness_models()
+    _, probes = witness_models()
     variant, found = {}, []
-    r = model.rename_symbols(probes["collectsParams"])
-    variant["collectsParams"] = "mgamma" in {s.name for s in r.parameter_defaults} and "m_0" not in {s.name for s in r.parameter_defaults}
-    r = model.rename_symbols(probes["reusesExisting"])
+    pm, ren = probes["collectsParams"]
+    r = pm.rename_symbols(ren)
+    names = {s.name for s in r.parameter_defaults}
+    variant["collectsParams"] = "mgamma" in names and "m_0" not in names
+    pm, ren = probes["reusesExisting"]
+    r = pm.rename_symbols(ren)
     ds = {s for s in r.expression.free_symbols | set(r.parameter_defaults) if isinstance(s, sp.Symbol) and s.name == "d"}
     variant["reusesExisting"] = len(ds) == 1
-    # has finding F1 been repaired? (two symbols with different assumptions sent to one fresh name)
-    r = model.rename_symbols({"a": "k", "m_0": "k"})
-    variant["unifiesFresh"] = len({s for s in r.parameter_defaults if s.name == "k"}) == 1
-    for switch, ren in probes.items():
-        fails, _ = oracle.check_case(model, ren, rng=None, numeric=False)
+    pm, ren = probes["oneSymbolPerNewName"]
+    r = pm.rename_symbols(ren)
+    ks = {s for s in r.expression.free_symbols | set(r.parameter_defaults) if isinstance(s, sp.Symbol) and s.name == "k"}
+    variant["oneSymbolPerNewName"] = len(ks) == 1
+    for switch, (pm, ren) in probes.items():
+        fails, _ = oracle.check_case(pm, ren, rng=None, numeric=False)
         if fails and not variant[switch]:
             found.append({"what": f"witness of the Lean theorem for variant switch {switch}=false replays on the real code",
-                          "model": "tools/props/C17.py: witness_models()", "renames": ren, "failed_clauses": fails[:3]})
+                          "model": f"tools/props/C17.py: witness_models() [{switch}]", "renames": ren, "failed_clauses": fails[:3]})
         elif fails:
             found.append({"what": f"{fails[0]['clause']}: {fails[0]['what']}",
-                          "model": "tools/props/C17.py: witness_models()", "renames": ren, "failed_clauses": fails[:3]})
+                          "model": f"tools/props/C17.py: witness_models() [{switch}]", "renames": ren, "failed_clauses": fails[:3]})
     return variant, found
 
 
@@ -155,8 +169,7 @@ class C17Property:
         chk.assumptions += [
             "names are ASCII, numbers inside names have <= 15 digits, no text chunk of a name parses as a float (inf/nan)",
             "no bound PoolSum index is among the collected symbols (structural xreplace is capture-free)",
-            "existing_symbols is unambiguous: at most one collected, unrenamed symbol carries a target name (the source iterates a set)",
-            "merging onto a fresh name couples only symbols with equal assumptions (see notes/findings_C17.md)",
+            "assumption sets are numbered in the order of str(sorted(assumptions0.items())) (the second component of the source's sort key)",
         ]
         return chk.finish()
 
@@ -171,19 +184,9 @@ class C17Property:
         found: list[dict] = []
         variant, wfound = infer_variant(chk)
         chk.info("inferred_variant", variant)
-        if variant.pop("unifiesFresh"):
-            chk.note("finding F1 is repaired in this source: fresh-name merges of symbols with different assumptions now give ONE "
-                     "symbol; those cases are outside the Lean model (theorem fresh_merge_with_different_assumptions_does_not_couple "
-                     "describes the unrepaired behaviour) and are skipped — update Model/C17Rename.lean with a third switch")
-            variant_f1 = True
-        else:
-            variant_f1 = False
         if not all(variant.values()):
             chk.broken_correspondence("variant", f"the code implements the unsound variant {variant}: the theorems (stated for the sound variant) do not apply")
         found += wfound
-        chk.info("finding_F1_repaired_in_source", variant_f1)
-        variant = dict(variant, unifiesFresh=variant_f1)
-        self._f1_repaired = variant_f1
 
         conv = corr.Conv()
         models = [(label, m, "real") for label, m in corr.load_real_models()]
@@ -200,12 +203,21 @@ class C17Property:
             models.append((f"synthetic#{i}", sm, "synthetic"))
             i += 1
         chk.info("synthetic_models_rejected_by_generator", rejected)
-        wm, _ = witness_models()
+        wm, wprobes = witness_models()
         models.append(("witness", wm, "synthetic"))
+        models.append(("witness-merge", wprobes["oneSymbolPerNewName"][0], "synthetic"))
         chk.info("models", {"real": [(l, describe(m)) for l, m, k in models if k == "real"],
                             "synthetic": sum(1 for _, _, k in models if k == "synthetic")})
 
-        lines = [f"variant {int(variant['collectsParams'])} {int(variant['reusesExisting'])}"]
+        # assumption sets numbered in the order of the source's sort key (second component)
+        import sympy as sp
+        every = set()
+        for _, mm, _ in models:
+            every |= oracle_mod.all_symbols(mm)
+            for e in [mm.intensity, *mm.amplitudes]:
+                every |= e.atoms(sp.Symbol)
+        conv.preregister(every)
+        lines = [f"variant {int(variant['collectsParams'])} {int(variant['reusesExisting'])} {int(variant['oneSymbolPerNewName'])}"]
         sweep = self.start_hash_sweep(tier, seed)
         expect: list[tuple] = [("ok", None)]
         # natural_sorting keys
@@ -223,6 +235,7 @@ class C17Property:
             expect.append(("key", n))
 
         cases: list[dict] = []
+        f1_shaped = [0]
         skipped: dict[str, int] = {}
         kinds_hit: dict[str, int] = {}
 
@@ -261,15 +274,16 @@ class C17Property:
                         if bound & collected:
                             raise corr.Skip("a bound PoolSum index is among the symbols of the model")
                         rd = dict(ren)
-                        for new in rd.values():
-                            ex = [s for s in collected if s.name == new and s.name not in rd]
-                            if len(ex) > 1:
-                                raise corr.Skip("existing_symbols ambiguous (set iteration order)")
+                        if not variant["oneSymbolPerNewName"]:  # before c9b6eb9 the choice depended on the set order
+                            for new in rd.values():
+                                ex = [s for s in collected if s.name == new and s.name not in rd]
+                                if len(ex) > 1:
+                                    raise corr.Skip("existing_symbols ambiguous (set iteration order)")
                         for nm in list(rd) + list(rd.values()):
                             if not corr.name_in_sort_domain(nm):
                                 raise corr.Skip("name outside the natural_sorting domain")
-                        if variant.get("unifiesFresh") and corr.fresh_merge_of_different_assumptions(info, rd):
-                            raise corr.Skip("F1 repaired in the source: fresh-name merge of different assumptions is outside the model")
+                        if corr.fresh_merge_of_different_assumptions(info, rd):
+                            f1_shaped[0] += 1
                         real = cur.rename_symbols(ren)
                         add_model(cur)
                         pairs = list(ren.items()) if isinstance(ren, dict) else list(ren)
@@ -358,6 +372,7 @@ class C17Property:
             chk.broken_correspondence("rename" if "model" in mm else "natural_sorting", mm)
         chk.info("correspondence", {"rename_steps_compared": n_cmp, "mismatches": len(mismatches), "natural_sorting_keys": n_key,
                                     "echo_round_trips": n_echo, "map_kinds": kinds_hit, "skipped": skipped,
+                                    "merges_of_different_assumptions_onto_a_fresh_name": f1_shaped[0],
                                     "steps_with_renamed_symbols": sum(1 for c in cases if c.get("renamed_by_model")),
                                     "node_classes": sorted(conv.cls_ids), "assumption_sets": len(conv.asms)})
         found += self.finish_hash_sweep(chk, sweep)
@@ -480,9 +495,10 @@ class C17Property:
         rng = common.rng_for(PROP_ID, seed, "fallback")
         cases = []
         models = [(l, m, "real") for l, m in corr.load_real_models()]
-        wm, probes = witness_models()
-        for ren in probes.values():
-            cases.append({"model": "witness", "kind": "synthetic", "step": 0, "map_kind": "probe", "renames": list(ren.items()), "before": wm})
+        _, probes = witness_models()
+        for switch, (pm, ren) in probes.items():
+            cases.append({"model": f"tools/props/C17.py: witness_models() [{switch}]", "kind": "synthetic", "step": 0,
+                          "map_kind": "probe", "renames": list(ren.items()), "before": pm})
         reaction = corr.load_reaction("d0_kkk_can")
         models += [(f"synthetic#{i}", corr.synthetic_model(rng, reaction, i), "synthetic") for i in range(60)]
         for label, m, kind in models:
@@ -525,7 +541,11 @@ def replay(rep: dict) -> int:
     inp = rep.get("input") or {}
     label, renames = inp.get("model"), inp.get("renames")
     models = dict(corr.load_real_models())
-    models["witness"] = models["tools/props/C17.py: witness_models()"] = witness_models()[0]
+    wm, wprobes = witness_models()
+    models["witness"] = wm
+    for switch, (pm, _) in wprobes.items():
+        models[f"tools/props/C17.py: witness_models() [{switch}]"] = pm
+    models["witness-merge"] = wprobes["oneSymbolPerNewName"][0]
     if label in models and renames is not None and inp.get("step", 0) == 0:
         ren = renames if isinstance(renames, dict) else [tuple(p) for p in renames]
         fails, facts = oracle.check_case(models[label], ren, rng=common.rng_for(PROP_ID, 0, "replay"))
@@ -545,26 +565,31 @@ MANIFEST = {
     "text": (
         "Proof about a model + differential tie. The Lean model (Model/C17Rename.lean, import-free, executable) follows "
         "rename_symbols/__collect_symbols, Python's dict semantics, the attrs converters and natural_sorting line by line; "
-        "symbols are (name, assumptions), expressions are trees over symbols/constants/uninterpreted operators, two variant "
-        "switches stand for the two parts of fix 137fbcb. 30 kernel-checked theorems (Props/C17.lean), all for ALL models, "
-        "maps and (where stated) variants: every attribute of the result is the original with ONE map sigma applied "
-        "(expressions by xreplace, dictionary keys by sigma, then dict/converter semantics; amplitudes/components are a "
-        "permutation of the mapped originals; parameter and kinematic-variable keys are exactly the images; values and "
-        "definitions are carried over; no collision => order and all entries kept); sigma renames exactly the mentioned "
-        "symbols whose name is in the map and nothing else (sound variant: also parameters that occur only in "
-        "parameter_defaults); assumptions are preserved for fresh targets; renaming onto an existing unique symbol couples the "
-        "two whatever their assumptions (sound variant), two equal-assumption symbols sent to a fresh name are coupled, and "
-        "symbols with different final names are never identified (single-pair merge: exactly the two); a map injective on names "
-        "gives an injective sigma, and then intensity(rename m)(data') = intensity(m)(data) whenever data' carries data over "
-        "(substitution = precomposition; parameters from parameter_defaults, kinematic variables from their definitions; any "
-        "carrier, operators uninterpreted); C01 closure is preserved when no parameter is identified with a kinematic variable "
-        "(inclusion half unconditionally); with sigma injective on kinematic-variable keys no definition is dropped "
-        "(precondition (iii) of the design); maps that mention no collected name return a well-formed model unchanged; the empty "
-        "map returns the model. Witness theorems (decide) for both unsound switches are replayed on the real code; the harness "
-        "infers the variant the source implements. Not proved / outside: 'the original is unchanged' is trivial in a functional "
-        "model and is checked on the real object (deep snapshot); two symbols with DIFFERENT assumptions sent to one fresh name "
-        "stay two symbols (theorem fresh_merge_with_different_assumptions_does_not_couple; reported as finding F1 in "
-        "notes/findings_C17.md) — the coupling clause is stated with that precondition. Tie: every run converts 11 corpus "
+        "symbols are (name, assumptions), expressions are trees over symbols/constants/uninterpreted operators, three variant "
+        "switches stand for the two parts of fix 137fbcb and for fix c9b6eb9 (sorted lookup, one symbol per new name). 33 "
+        "kernel-checked theorems (Props/C17.lean), all for ALL models, maps and (where stated) variants: every attribute of the "
+        "result is the original with ONE map sigma applied (expressions by xreplace, dictionary keys by sigma, then "
+        "dict/converter semantics; amplitudes/components are a permutation of the mapped originals; parameter and "
+        "kinematic-variable keys are exactly the images; values and definitions are carried over; no collision => order and all "
+        "entries kept); sigma renames exactly the mentioned symbols whose name is in the map and nothing else (sound variant: "
+        "also parameters that occur only in parameter_defaults); assumptions are preserved whenever all symbols sent to a fresh "
+        "name share them (always for a single source); renaming onto an existing unique symbol couples the two whatever their "
+        "assumptions; ANY two symbols sent to one name become one symbol (merge_couples, no precondition), all of them taking "
+        "the assumptions of the least source by the sort key (name, assumptions) (merge_onto_fresh_takes_first_assumptions); "
+        "symbols with different final names are never identified (single-pair merge: exactly the two); the image depends only "
+        "on the SET of collected symbols, not on its iteration order (target_independent_of_set_order: hash-seed independence); "
+        "a map injective on the names of a model with one symbol per name gives an injective sigma, and then "
+        "intensity(rename m)(data') = intensity(m)(data) whenever data' carries data over (substitution = precomposition; "
+        "parameters from parameter_defaults, kinematic variables from their definitions; any carrier, operators uninterpreted); "
+        "C01 closure is preserved when no parameter is identified with a kinematic variable (inclusion half unconditionally); "
+        "with sigma injective on kinematic-variable keys no definition is dropped (precondition (iii) of the design); maps that "
+        "mention no collected name return a well-formed model unchanged; the empty map returns the model. Witness theorems "
+        "(decide) for all three unsound switches are replayed on the real code; the harness infers the variant the source "
+        "implements. Not proved / outside: 'the original is unchanged' is trivial in a functional model and is checked on the "
+        "real object (deep snapshots of every model of every history). Findings F1/F2 (two symbols with different assumptions "
+        "under one fresh name stayed uncoupled; the choice among same-named symbols depended on the hash seed) were reported "
+        "from this check, repaired in /repo by c9b6eb9 and are now covered by the theorems above (see "
+        "notes/findings_C17.md). Tie: every run converts 11 corpus "
         "models (5 qrules reactions: helicity and canonical formalism, stable final-state ids, scalar initial-state mass, "
         "Breit-Wigner dynamics with and without form factors, helicity couplings, and ALIGNED models — axis-angle and "
         "Dalitz-plot decomposition, the latter with stable ids so that the zeta-angle definitions contain mass parameters and "
@@ -590,7 +615,8 @@ MANIFEST = {
         "xreplace on built-in nodes, the HelicityModel.expression property (PoolSum.evaluate + amplitude substitution; its value "
         "is an input of the model), CPython dict/sorted. Domain restrictions (each counted in the evidence): ASCII names, "
         "numbers in names <= 15 digits, no name chunk that float() accepts; no bound PoolSum index among the collected symbols; "
-        "existing_symbols unambiguous (the source iterates a set); the derived `expression` is compared through its free symbols "
+        "assumption sets are numbered per run in the order of str(sorted(assumptions0.items())) so that the model's sort key agrees "
+        "with the source's; the derived `expression` is compared through its free symbols "
         "(its tree is re-derived and re-evaluated by SymPy) and by value: the numeric clause runs for maps under which every "
         "symbol keeps its assumptions (SymPy simplifies by assumptions)."
     ),
